@@ -156,13 +156,25 @@ def msg_case(item):
         nonlocal n
         n += 1
         r = judge_parse(fn, d)
+        if r[0] == "FAIL" and tok == "CCERT" and \
+                "re-serialises differently" in r[1]:
+            # a compressed certificate has many encodings (any deflate
+            # stream of the same content): the serialiser need not reproduce
+            # the peer's, but must be stable on its own output
+            try:
+                w1 = bytes(fn(d).write())
+                if bytes(fn(w1).write()) == w1:
+                    r = ("roundtrip-recompressed",)
+            except BaseException:  # noqa
+                pass
         sigs.add((tok, label.split("@")[0].split("=")[0].split("[")[0],
                   r[0]))
         if r[0] == "FAIL":
             if len(fails) < 12:
                 fails.append({"msg": tok, "scenario": name,
                               "mutation": label, "why": r[1]})
-        elif must_roundtrip and r[0] != "roundtrip":
+        elif must_roundtrip and r[0] not in ("roundtrip",
+                                             "roundtrip-recompressed"):
             fails.append({"msg": tok, "scenario": name, "mutation": label,
                           "why": "well-formed encoding rejected: %r" % (r,)})
     check("identity", data, True)
